@@ -1444,11 +1444,13 @@ write_gvar_data(Relocation *cur, Initializer *init, Type *ty, char *buf, int off
       if (mem->is_bitfield) {
         Node *expr = init->children[mem->idx]->expr;
         if (!expr)
-          break;
+          continue;
 
         char *loc = buf + offset + mem->offset;
         uint64_t oldval = read_buf(loc, mem->ty->size);
         uint64_t newval = eval(expr);
+        if (mem->ty->kind == TY_BOOL)
+          newval = is_flonum(expr->ty) ? eval_double(expr) != 0 : newval != 0;
         uint64_t mask = ~0UL >> (64 - mem->bit_width);
         uint64_t combined = oldval | ((newval & mask) << mem->bit_offset);
         write_buf(loc, combined, mem->ty->size);
@@ -1477,6 +1479,13 @@ write_gvar_data(Relocation *cur, Initializer *init, Type *ty, char *buf, int off
 
   if (ty->kind == TY_DOUBLE) {
     *(double *)(buf + offset) = eval_double(init->expr);
+    return cur;
+  }
+
+  if (ty->kind == TY_BOOL) {
+    // Conversion to _Bool is a comparison with zero, not a truncation.
+    add_type(init->expr);
+    buf[offset] = is_flonum(init->expr->ty) ? eval_double(init->expr) != 0 : eval(init->expr) != 0;
     return cur;
   }
 
